@@ -384,6 +384,7 @@ func TestCheck(t *testing.T) {
 	t.Run("boundaries", func(t *testing.T) { boundaries(t, rec) })
 	t.Run("name-collisions", func(t *testing.T) { collisions(t, rec) })
 	ev.RapidCheck(t, "eval-sessions", ev.N(1500, 30000), 3, func(rt *rapid.T) { evalSession(rt, rec) })
+	ev.RapidCheck(t, "table-sessions", ev.N(1500, 30000), 4, func(rt *rapid.T) { tableSession(rt, rec) })
 
 	profs := profiles()
 	ev.RapidCheck(t, "mutated-programs", ev.N(3000, 50000), 1, func(rt *rapid.T) {
@@ -817,6 +818,17 @@ func runReplays(t *testing.T, rec *ev.Rec) {
 				what := fmt.Sprintf("replay %s: Eval session panicked at fragment %d: %s\n%s", rf.Path, at, pan, firstLines(stack, 24))
 				if !rec.Violation("eval-session:"+panicSig(pan, stack), what, c) {
 					t.Errorf("%s", what)
+				}
+			} else {
+				rec.Class("replay-pass")
+			}
+			continue
+		}
+		if c.Kind == "table-session" {
+			frags := strings.Split(string(src), "\n---\n")
+			if sig, what, _ := runTableFrags(rec, frags, c.Opt); sig != "" {
+				if !rec.Violation(sig, "replay "+rf.Path+": "+what, c) {
+					t.Errorf("replay %s: %s: %s", rf.Path, sig, firstLines(what, 12))
 				}
 			} else {
 				rec.Class("replay-pass")
